@@ -35,6 +35,7 @@ class User:
         self.name, self.password, self.key, self.family = name, password, key, family
 
 
+HASHING = None           # per history: None (default BLAKE2b-512) | sha2 | sha3 | short blake2b
 CACHE_MODE = 'none'      # per history: 'none' | 'per_user' | 'shared' (one directory for all users, as the CLI default does)
 
 
@@ -57,6 +58,8 @@ _plain_open = open_repo
 async def setup_users(root, encrypted):
     r = Repository(Local(root / 'repo'), concurrent=2, quiet=True, cache_directory=None)
     settings = {'chunking': {'min_length': 8, 'max_length': 64}}
+    if HASHING is not None:
+        settings['hashing'] = dict(HASHING)
     settings['encryption'] = {'kdf': dict(FAST)} if encrypted else None
     with lib.quiet():
         res = await r.init(password=b'owner', settings=settings)
@@ -350,10 +353,11 @@ def main():
             rnd = random.Random(seed * 1000 + h + (500 if encrypted else 0))
             with lib.scratch('vf_hist_') as root:
                 cases += 1
-                global CACHE_MODE
+                global CACHE_MODE, HASHING
                 CACHE_MODE = ('per_user', 'shared', 'none')[h % 3]
+                HASHING = (None, {'name': 'sha3', 'bits': 256}, {'name': 'sha2', 'bits': 384}, {'name': 'blake2b', 'length': 32}, None)[h % 5]
                 case = {'encrypted': encrypted, 'history': h, 'seed': seed, 'ops': 10, 'prop': prop, 'long_lived_objects': h % 2 == 1,
-                        'snapshot_cache': CACHE_MODE}
+                        'snapshot_cache': CACHE_MODE, 'hashing': HASHING}
                 try:
                     probs = asyncio.run(history(root, rnd, encrypted, prop, 10, long_lived=(h % 2 == 1)))
                 except Exception as e:
